@@ -23,7 +23,7 @@ REQUIRED_MONITORS = ('em_shape_contract', 'locality', 'retained_results')
 REQUIRED_CLASSES = ('reference:through-the-parsers', 'reference:two-atoms-bond-length-changed', 'reference:one-atom', 'scale:zero', 'scale:two', 'deformation:none-or-one-ulp', 'deformation:small', 'deformation:large', 'displaced:anchor', 'displaced:frame-neighbour',
                     'displaced:other', 'displacement:small', 'displacement:far', 'embedded:extrapolate',
                     'geometry:generic', 'geometry:partial-collinear', 'geometry:linear-z', 'argument:same-object-mutated-in-place',
-                    'argument:fresh-copy')
+                    'argument:fresh-copy', 'map:made-by-an-alignment-whose-molecules-then-change')
 RULE = ('(reference, target, s) as in C01 x K deformed conformations (independent Gaussian displacement of every atom, sigma '
         '1%..100% of a bond length) with the shape contract on every call; locality: every reference atom displaced in turn '
         '(small / large / to a far-away point). Non-trivial: the conformation differs from the construction one and the map '
@@ -120,7 +120,22 @@ def run_gen(ctx, case):
                 ctx.count('rejected_reference')
                 continue
             ctx.hit('reference:through-the-parsers')
-        emap = ExchangeMap(refm, tgtm, s)
+        if it in (4, 8):
+            # the map made for the pair held by an Alignment; the user carries on with the alignment's molecules (moves,
+            # turns and reshapes them) before the map is used for the first time: the law is the one of the moment the
+            # map was made
+            from gaddlemaps import Alignment
+            ali = Alignment(refm, tgtm)
+            ali.init_exchange_map(s)
+            emap = ali.exchange_map
+            ali.end.move(rng.normal(size=3) * 2)
+            ali.start.rotate(gen.random_rotation(rng))
+            if it == 8:
+                ali.end.atoms_positions = np.array(ali.end.atoms_positions) + rng.normal(size=(len(tpos), 3)) * 0.3
+                ali.start.atoms_positions = np.array(ali.start.atoms_positions) + rng.normal(size=(n, 3)) * 0.05
+            ctx.hit('map:made-by-an-alignment-whose-molecules-then-change')
+        else:
+            emap = ExchangeMap(refm, tgtm, s)
         model = emap.__dict__['_gmv_model']
         ctx.hit('geometry:' + info['geometry'])
         bond = float(np.mean([np.linalg.norm(pos[a] - pos[b]) for a, b in edges]))
